@@ -31,6 +31,9 @@ def subject_names(rng, n, awkward=0.35):
     out = []
     while len(out) < n:
         s = rng.choice(AWKWARD_SUBJECTS) if rng.random() < awkward else rand_name(rng)
+        if rng.random() < 0.03:
+            # a name longer than the 4 KiB / 8 KiB buffers of the I/O stack
+            s = (rand_name(rng) + "_") * rng.choice([40, 700, 1500])
         if s not in out:
             out.append(s)
     return out
